@@ -247,6 +247,12 @@ def instances(tier, seed):
     for nm, ne in ([(1, 2), (2, 2), (1, 3)] if q else [(1, 1), (1, 2), (2, 2), (1, 3), (2, 3), (3, 2)]):
         out.append(Instance("dump[models=%d,exons=%d]" % (nm, ne), h_dump_symbolic(nm, ne), [T + "GFFPrinter.dump", T + "validate_exons", "src.common:max_range"],
                             "%d models x %d exons, coordinates symbolic and unconstrained" % (nm, ne), weight=20 ** (nm * ne), budget_s=1800))
+    # a reference isoform reproduced in two regions of one chromosome is written once (shared with C10)
+    from props import c10
+    out.append(Instance("known_isoform_once_per_chromosome", c10.h_known_isoform_reported,
+                        ["src.graph_based_model_construction:GraphBasedModelConstructor.__init__",
+                         "src.graph_based_model_construction:GraphBasedModelConstructor.construct_fl_isoforms"],
+                        "the same locus handled by two constructors of one chromosome run, symbolic read count", weight=20))
     out.append(Instance("dump_two_regions", h_dump_two_regions, [T + "GFFPrinter.dump"],
                         "one gene, two dump calls (two regions of a split locus) with one mono-exonic model each, symbolic coordinates", weight=20))
     for locus in (["skip", "antisense", "alt_ends"] if q else sorted(readfam.LOCI)):
